@@ -38,18 +38,16 @@ def seg (x : α) : α → α → List α → List α → α
 
 /-- `np.interp(x, xp, fp, left = fp[0], right = fp[-1])` for a scalar `x`.
 `none`: empty `xp`/`fp` (IndexError on `fp[0]` / ValueError) or different lengths (ValueError).
-One break point: NumPy's special case returns `left`, `fp[0]` or `right` — all `fp[0]`.
-Otherwise `x > xp[-1] → right`, `x < xp[0] → left` (in this order), else `seg`. -/
+`x > xp[-1] → right`, `x < xp[0] → left` (in this order), else `seg`.
+One break point: NumPy has a special case returning `left`, `fp[0]` or `right`, which are all
+`fp[0]` here — and so is every branch below (`lastD f0 [] = f0`, `seg … [] [] = f0`). -/
 def npInterp (x : α) (xp fp : List α) : Option α :=
   match xp, fp with
   | x0 :: xs, f0 :: fs =>
     if xs.length = fs.length then
-      some (match xs with
-        | [] => f0
-        | _ :: _ =>
-          if lastD x0 xs < x then lastD f0 fs
-          else if x < x0 then f0
-          else seg x x0 f0 xs fs)
+      some (if lastD x0 xs < x then lastD f0 fs
+            else if x < x0 then f0
+            else seg x x0 f0 xs fs)
     else none
   | _, _ => none
 
